@@ -36,6 +36,8 @@ K_HASHBRACE = "text-mismatch:hash-brace"
 K_STRIP = "text-mismatch:delimited-brace-strip"
 K_XA_EMPTY = "text-mismatch:expandafter-empty-expansion"
 K_GDEF_SHADOW = "text-mismatch:gdef-shadowed-by-local-definition"
+K_QUAD_HASH = "text-mismatch:quad-hash-below-parameterless-def"
+K_QUAD_HASH_RAISE = "raise:ValueError@plasTeX/__init__.py:invoke:quad-hash"
 K_LETCHAR = "text-mismatch:let-char-alias-resolved-by-tokenizer"
 
 POOL = ["qa", "qb", "qc", "qd", "foo", "zork", "x", "q"]
@@ -356,7 +358,7 @@ class Gen(object):
         elif r <= 7:
             np_ = self.i(1, 3)
         else:
-            np_ = self.i(4, 9)
+            np_ = 9 if self.p(3) else self.i(4, 9)
         params = []
         for _ in range(np_):
             if self.p(4):
@@ -460,6 +462,10 @@ class Gen(object):
         if r <= 11 and cands:
             return [self.gen_call(ctx, cands)]
         if r == 12:
+            if self.p(5) and gdepth < 4:
+                sc = self.gen_let_scenario(ctx, gdepth)
+                if sc is not None:
+                    return sc
             return self.gen_let(gdepth)
         if r == 13:
             return self.gen_letc(gdepth)
@@ -575,14 +581,28 @@ class Gen(object):
         # leaf body: text and parameters (own: ## / outer: #) only
         inner = Ctx(0, frames, frozenset(), 0, True, set(), ctx.deps, 0)
         body = self.gen_items(inner, self.i(1, 4))
-        if lv == 1 and self.p(2):
+        if lv == 1 and self.p(4):
             # depth-2 nesting: a parameterless helper defined and used inside
             h = self.pick(HELPERS)
-            hb = self.gen_items(inner, self.i(1, 2))
-            hsig = {"kind": "tex", "params": [], "prefix": [], "hashbrace": False, "clean": []}
+            with_par = self.p(5)
+            if with_par and ctx.frames[0][1] == 0 and (K_QUAD_HASH in KNOWN or K_QUAD_HASH_RAISE in KNOWN):
+                self.note_excluded("quad-hash-below-parameterless-macro")
+                with_par = False
+            if with_par:
+                # ... with a parameter of its own, written ####1
+                hsig = {"kind": "tex", "params": [{"delim": []}], "prefix": [], "hashbrace": False,
+                        "clean": [2]}
+                hctx = Ctx(0, frames + [(lv + 1, 1, [2])], frozenset(), 0, True, set(), ctx.deps, 0)
+                hb = self.gen_items(hctx, self.i(1, 3))
+                hargs = [{"form": "grp", "sp": False, "c": [{"k": "t", "s": self.word()}]}]
+                self.features.add("nested-def-depth-2-with-parameter")
+            else:
+                hsig = {"kind": "tex", "params": [], "prefix": [], "hashbrace": False, "clean": []}
+                hb = self.gen_items(inner, self.i(1, 2))
+                hargs = []
             body = [{"k": "def", "cmd": "def", "name": h, "via": "plain", "sig": hsig, "lv": lv + 1,
                      "body": hb},
-                    {"k": "call", "name": h, "via": "plain", "sig": hsig, "args": []}] + body
+                    {"k": "call", "name": h, "via": "plain", "sig": hsig, "args": hargs}] + body
             self.features.add("nested-def-depth-2")
         return {"k": "def", "cmd": self.def_cmd(name, 2), "name": name, "via": "plain",
                 "sig": sig, "lv": lv, "body": body}
@@ -793,6 +813,38 @@ class Gen(object):
         self.features.add("has-let")
         return [{"k": "let", "alias": a, "src": src, "form": self.i(0, 3)}]
 
+    def gen_let_scenario(self, ctx, gdepth):
+        r"""\let\al\src  { \def\src{new} \let\al\src  \al.. }  \al..  : the alias keeps the
+        meaning its source had at the time of the \let, and the inner \let is local."""
+        out = self.gen_let(gdepth)
+        if out is None:
+            return None
+        a = out[0]["alias"]
+        src = self.alias_src[a]
+        if self.sigs[src]["kind"] == "opt":
+            return out
+        self.scope.push()
+        inner = []
+        name_backup = self.names
+        # redefine the source inside the group (locally unless its definitions are all global)
+        self.names = [src]
+        d = self.gen_def(gdepth + 1)
+        self.names = name_backup
+        if d is not None:
+            inner.extend(d)
+        l2 = self.gen_let(gdepth + 1)
+        if l2 is not None:
+            inner.extend(l2)
+        if self.scope.callable(a):
+            inner.append(self.gen_call(ctx, [a]))
+        self.scope.pop()
+        out.append({"k": "grp", "kind": "brace" if self.p(6) else "semi", "body": inner})
+        if self.scope.callable(a):
+            out.append(self.gen_call(ctx, [a]))
+        self.features.add("let-relet-in-group-scenario")
+        self.features.add("group-depth-%d" % (gdepth + 1))
+        return out
+
     def gen_letc(self, gdepth):
         c = self.pick(CHARLETS)
         if c in self.char_let_seen and K_LETCHAR in KNOWN:
@@ -814,15 +866,37 @@ def programs(draw, tier="quick"):
 # ----------------------------------------------------------------------------
 # oracle
 # ----------------------------------------------------------------------------
+def release(tex, doc):
+    """Harness hygiene, after the observations were taken: plasTeX tokens are str
+    subclasses that point to their document but are invisible to the cycle collector,
+    so a processed document (with all its per-context classes, ~0.4 MB) is never
+    freed.  Emptying the containers lets reference counting free everything."""
+    try:
+        ctx = doc.context
+        for c in list(ctx.contexts):
+            dict.clear(c)
+            c.__dict__.clear()
+        ctx.__dict__.clear()
+        while doc.childNodes:
+            doc.pop()
+        doc.__dict__.clear()
+        tex.__dict__.clear()
+    except Exception:
+        pass
+
+
 def run_real(src):
     from plasTeX.TeX import TeX
     tex = TeX()
     tex.disableLogging()
     doc = tex.ownerDocument
     d0 = len(doc.context.contexts)
-    tex.input(src)
-    out = tex.parse()
-    return "".join(out.textContent.split()), len(doc.context.contexts) - d0
+    try:
+        tex.input(src)
+        out = tex.parse()
+        return "".join(out.textContent.split()), len(doc.context.contexts) - d0
+    finally:
+        release(tex, doc)
 
 
 def suspects(stats):
@@ -830,6 +904,8 @@ def suspects(stats):
     out = []
     if stats["hash_brace"]:
         out.append(K_HASHBRACE)
+    if stats["quad_hash"]:
+        out.append(K_QUAD_HASH)
     if stats["expandafter_empty"]:
         out.append(K_XA_EMPTY)
     if stats["let_char"]:
@@ -890,7 +966,7 @@ def _lists(node, acc):
             _lists(a, acc)
 
 
-def reduce_case(case, verdict, err_key, budget=50):
+def reduce_case(case, verdict, err_key, budget=30):
     """Greedy deletion of AST items while the same kind of failure persists
     (bounded; used only to name the root cause, never to decide pass/fail)."""
     import copy
@@ -931,6 +1007,7 @@ def check(case):
                        ("opt_default", "optional-default"), ("hash_brace", "hash-brace"),
                        ("partial_match", "partial-match"), ("restored", "local-def-restored"),
                        ("expandafter_empty", "expandafter-empty-expansion"), ("double_hash", "double-hash"),
+                       ("quad_hash", "quad-hash"),
                        ("let_char", "let-char"), ("gdef_over_local", "gdef-over-live-local-def"), ("let_macro", "let-macro"), ("csname", "csname"),
                        ("expandafter", "expandafter")):
         if s[stat]:
@@ -946,7 +1023,10 @@ def check(case):
         return ok(sorted(feats), nontrivial)
     detail = {"src": src, "expected": m.text}
     if verdict == "raise":
-        return fail(obs.key, dict(detail, **obs.detail()), sorted(feats))
+        key = obs.key
+        if key + ":quad-hash" == K_QUAD_HASH_RAISE and s["quad_hash"]:
+            key = K_QUAD_HASH_RAISE
+        return fail(key, dict(detail, **obs.detail()), sorted(feats))
     # name the root cause: reduce the program when more than one suspect construct is present
     sus = suspects(s)
     if len(sus) > 1 and "body" in case:
